@@ -2,7 +2,7 @@
 from sqlite_dissect.file.database.database import Database
 
 from ..gen import sqlite_factory as F
-from . import dbcommon as C, specvalid as V
+from . import dbcommon as C, ifacecheck as IF, specvalid as V
 
 ID = "C01"
 LEAN_MODULES = ["SqliteDissect.Properties.C01Tree", "SqliteDissect.Properties.C01", "SqliteDissect.Properties.C01Cell", "SqliteDissect.Properties.C15", "SqliteDissect.Properties.C16",
@@ -46,6 +46,7 @@ def run(ctx, n_quick=48, n_thorough=600):
         rows_checked = 0
         for b in C.build_databases(ctx, sc, C.n_databases(ctx, n_quick, n_thorough), force=FORCE):
             rows_checked += check_database(ctx, b.path, b.tables, {"cfg": b.cfg, "seed": ctx.seed})
+            IF.run(ctx, [b])       # select_all_from_table / _index by name vs the model (harness/props/ifacecheck.py)
         ctx.extra["rows_compared_with_sqlite"] = rows_checked
     finally:
         sc.close()
